@@ -3315,13 +3315,17 @@ The what argument tells us what sort of state is expected (allowed values are de
 
             removedDirs[dir] = 1
 
-    def _remove(self, productName, versionName, recursive, checkRecursive, topProduct, topVersion, userInfo):
-        """The workhorse for remove"""
+    def _remove(self, productName, versionName, recursive, checkRecursive, topProduct, topVersion, userInfo,
+                seen=None):
+        """The workhorse for remove; seen lists the products whose dependencies are already being collected"""
 
         if productName == hooks.config.Eups.defaultProduct.get("name", "toolchain"):
             return []
 
         product = self.getProduct(productName, versionName)  # can raise ProductNotFound
+        if seen is None:
+            seen = []
+        seen.append(product)
         deps = [[product, False, 0]]
         if recursive:
             tbl = product.getTable()
@@ -3355,9 +3359,9 @@ The what argument tells us what sort of state is expected (allowed values are de
                         raise EupsException("%s; specify force to remove" % (msg))
 
             if recursive:
-                productsToRemove += self._remove(product.name, product.version, (product.name != productName),
+                productsToRemove += self._remove(product.name, product.version, (product not in seen),
                                                  checkRecursive, topProduct=topProduct, topVersion=topVersion,
-                                                 userInfo=userInfo)
+                                                 userInfo=userInfo, seen=seen)
 
             productsToRemove += [product]
 
